@@ -174,6 +174,34 @@ func closeAndCheckClean(h *world.H, grace time.Duration) {
 	checkNoLeak()
 }
 
+// recoveryBound: how long (simulated) the library may take to get back in step
+// through the watch alone once faults have stopped.  The property contrasts
+// "the reconnect delay" with "the refresh period" (hours here); the harness does
+// not hard-code the library's retry constant, it only demands recovery within
+// a bound far below any refresh period used with it.
+const recoveryBound = 30 * time.Second
+
+// waitQuiet lets simulated time pass, in small steps, until cond holds at a
+// quiescent point or the bound is used up.  Call it after FairMode().
+func waitQuiet(bound time.Duration, cond func() bool) bool {
+	deadline := detsim.Elapsed() + bound
+	for {
+		detsim.Settle()
+		if cond() {
+			return true
+		}
+		if detsim.Elapsed() >= deadline {
+			return false
+		}
+		time.Sleep(250 * time.Millisecond)
+	}
+}
+
+func rootInSync(h *world.H) bool {
+	got, _, ok := world.ListIDs(h.Ctrl.Cache())
+	return !ok || world.SameIDs(got, world.SpecIDs(h.ExpectRoot()))
+}
+
 func dumpLive() string {
 	out := ""
 	for _, g := range detsim.Goroutines() {
